@@ -1,14 +1,20 @@
 #!/bin/bash
-# false-alarm test: apply each behaviour-preserving change of seeded/keep/ to a scratch worktree and run every
-# claimed check against it; every line must say rc=0 (or rc=2 = undecided, never rc=1)
-cd /verif
-props=$(python3 -c "import json; print(' '.join(c['property_id'] for c in json.load(open('MANIFEST.json'))['checks']))")
-for d in ${KEEP_GLOB:-seeded/keep/keep*.diff seeded/keep/sem*.diff}; do
+# false-alarm test: apply each behaviour-preserving change of seeded/keep/ to a scratch worktree and run checks against it;
+# every line must say rc=0 (or rc=2 = undecided, never rc=1).
+#   KEEP_GLOB   which diffs (default: all)
+#   KEEP_PROPS  which properties (default: every claimed check); a file seeded/keep/<name>.props (one line, space separated)
+#               restricts the run for that diff to the properties whose contracts touch the refactored function
+cd "$(dirname "$0")/.."
+V=$(pwd)
+all=$(python3 -c "import json; print(' '.join(c['property_id'] for c in json.load(open('MANIFEST.json'))['checks']))")
+for d in ${KEEP_GLOB:-seeded/keep/keep*.diff seeded/keep/sem*.diff seeded/keep/ref*.diff}; do
   k=$(basename $d .diff)
   case $k in *.orig) continue;; esac
+  props=${KEEP_PROPS:-$all}
+  [ -z "$KEEP_PROPS" ] && [ -f seeded/keep/$k.props ] && props=$(cat seeded/keep/$k.props)
   W=$(mktemp -d /tmp/kc-XXXXXX); rmdir "$W"
   git -C /repo worktree add -q "$W" HEAD || exit 3
-  (cd "$W" && git apply /verif/$d) || { echo "$k PATCH DOES NOT APPLY"; git -C /repo worktree remove --force "$W"; continue; }
+  (cd "$W" && git apply "$V/$d") || { echo "$k PATCH DOES NOT APPLY"; git -C /repo worktree remove --force "$W"; continue; }
   for p in $props; do
     out=$(python3 tools/runner.py $p quick --repo "$W" 2>&1); rc=$?
     echo "$k $p rc=$rc $(echo "$out" | grep -vE '^KNOWN' | tail -1 | cut -c1-200)"
